@@ -3,6 +3,7 @@ package extract
 import (
 	"archive/zip"
 	"bytes"
+	"encoding/base64"
 	"encoding/json"
 	"fmt"
 	"os"
@@ -204,6 +205,7 @@ type Src struct {
 	Text string   `json:"text,omitempty"` // literal text placed before the fixture bytes
 	Pad  int      `json:"pad,omitempty"`  // one generated line of this many bytes appended (no line break inside)
 	Zip  []ZipEnt `json:"zip,omitempty"`
+	Gen  string   `json:"gen,omitempty"` // built-in generated content: rpm-wal-db | rpm-wal-wal (walfixture.go)
 	Ops  []Op     `json:"ops,omitempty"`
 }
 
@@ -286,6 +288,14 @@ func (s *Src) bytes(corrupt bool) ([]byte, error) {
 		}
 		b = buf.Bytes()
 	} else {
+		switch s.Gen {
+		case "rpm-wal-db":
+			d, _ := base64.StdEncoding.DecodeString(walDB)
+			b = append(b, d...)
+		case "rpm-wal-wal":
+			d, _ := base64.StdEncoding.DecodeString(walWAL)
+			b = append(b, d...)
+		}
 		b = append(b, s.Text...)
 		if s.Fix != "" {
 			fb, err := readFixture(s.Fix)
@@ -339,7 +349,7 @@ func (s *Src) describe() string {
 		if s.Text != "" {
 			fmt.Fprintf(&sb, "text(%d)+", len(s.Text))
 		}
-		sb.WriteString(filepath.Base(s.Fix))
+		sb.WriteString(s.Gen + filepath.Base(s.Fix))
 		if s.Pad > 0 {
 			fmt.Fprintf(&sb, "+pad(%d)", s.Pad)
 		}
@@ -425,6 +435,9 @@ func structural(b []byte, o Op) []byte {
 		if len(t) > 0 && t[0] != '#' && (bytes.ContainsAny(t, ":=") || bytes.HasPrefix(t, []byte("- "))) {
 			cands = append(cands, i)
 		}
+	}
+	if o.Kind == "nullval" && o.Off%(len(cands)+1) == len(cands) {
+		return []byte([]string{"null\n", "~\n", "# nothing\n", "---\n"}[o.Val%4]) // the whole (YAML) document is null
 	}
 	if len(cands) == 0 {
 		return b
